@@ -461,18 +461,28 @@ theorem entry_points_on_miss {B D : Type} (E : Env B D) (st : St D) (q : Req B D
   · intro hft; subst hft
     exact reprS_miss E st q hf hch hc ha hn
 
-/-- **`_repr_mimebundle_` on a hit**: if at least one selected MIME format is cached, the bundle consists of
-exactly the cached ones; each item is `from_cache` of the bytes found under this diagram's own name
-`u ++ ext` of that format's converter; the in-memory state is untouched (in particular nothing is rendered). -/
+/-- **`_repr_mimebundle_` on a hit** (after fix `mimebundle|ancestor-not-used`): if at least one selected MIME
+format can be served from the cache, the bundle consists of exactly those; each item is what `render`'s own
+lookup returns for that format — `from_cache` of the bytes found under this diagram's own name `u ++ ext` of a
+converter of that format's `depends` chain, converted forward through ALL converters in front of it; the
+in-memory state is untouched (in particular nothing is rendered). -/
 theorem mimebundle_hit {B D : Type} (E : Env B D) (hc : E.cfg.cache = true) (st : St D) (q : Req B D)
     (sel : Str → Bool) (draw : Bool) (tr : List Ev) (it : Str × D) (items : List (Str × D))
     (h : bundleCached E q (bundleFormats E sel) = (tr, .ok (it :: items))) :
     mimebundleS E st q sel draw = (st, tr, .ok (.bundle (it :: items))) ∧
-    ∀ m d, (m, d) ∈ it :: items → ∃ c e b, (m, c) ∈ bundleFormats E sel ∧ usableFor E.u c = some e ∧
-      q.openf (E.u ++ e) = .found b ∧ E.ops.fromCache c.id b = .ok d :=
-  ⟨mimebundleS_cached E st q sel draw h, bundleCached_items E q hc _ tr _ h⟩
+    Ev.fresh ∉ tr ∧
+    ∀ m d, (m, d) ∈ it :: items → ∃ c ch k cv e b d0, (m, c) ∈ bundleFormats E sel ∧ E.T.chain c.id = some ch ∧
+      ch[k]? = some cv ∧ usableFor E.u cv = some e ∧ q.openf (E.u ++ e) = .found b ∧
+      E.ops.fromCache cv.id b = .ok d0 ∧ (runLoadF E.ops (ch.take k) d0).2 = .ok d := by
+  refine ⟨mimebundleS_cached E st q sel draw h, ?_, ?_⟩
+  · have := bundleCached_no_fresh E q (bundleFormats E sel)
+    rw [h] at this; exact this
+  · intro m d hm
+    obtain ⟨c, ch, tr0, hmc, hch, hl⟩ := bundleCached_items E q hc _ tr _ h m d hm
+    obtain ⟨k, cv, e, b, d0, hk, hu, ho, hfc, hrun⟩ := loadCacheF_ok E.ops hl
+    exact ⟨c, ch, k, cv, e, b, d0, hmc, hch, hk, hu, ho, hfc, hrun⟩
 
-/-! ### `_repr_mimebundle_` on a miss: the code does NOT satisfy the statement (known finding) -/
+/-! ### `_repr_mimebundle_` on a miss: the fallback policy of `render` (fixed; was a known finding) -/
 
 private def envT (u : Str) (cfg : Cfg) (fs : ConvFaults) : Env Str Term :=
   { T := table, ops := termOpsF fs, cfg := cfg, u := u, name := "N".toList, mimes := mimes }
@@ -483,14 +493,20 @@ def mimebundle_respects_fallback_full : Prop :=
   ∀ (u : Str) (present : List Str) (inc : Option (List Str)) (exc : List Str) (draw : Bool),
     Ev.fresh ∉ (mimebundleS (envT u ⟨true, false⟩ []) .empty ⟨openOfF present [], .ok .fresh⟩ (selOf inc exc) draw).2.1
 
-/-- … and it does: empty cache, default `include` — `__render_fresh({})` is called unconditionally
-(signature `mimebundle|fresh-without-fallback`, replayed on the implementation by the monitor). -/
-theorem mimebundle_respects_fallback_full_fails : ¬ mimebundle_respects_fallback_full := by
-  intro h
-  exact absurd (h "_d".toList [] none [] false) (by decide +kernel)
+/-- **general form** (every table, every interpretation of the converters incl. raising ones, every handler
+incl. raising ones, every in-memory state, every selection): with a cache configured and the fallback off
+`_repr_mimebundle_` never calls `__render_fresh` and leaves the state as it is. -/
+theorem mimebundle_respects_fallback {B D : Type} (E : Env B D) (st : St D) (q : Req B D)
+    (sel : Str → Bool) (draw : Bool) (hc : E.cfg.cache = true) (ha : E.cfg.allowRender = false) :
+    (mimebundleS E st q sel draw).1 = st ∧ Ev.fresh ∉ (mimebundleS E st q sel draw).2.1 :=
+  mimebundleS_no_fresh E st q sel draw hc ha
 
-/-- the part that holds: whenever a selected format is cached (`mimebundle_hit`), and always when nothing is
-selected, the renderer does not run and the state stays as it is -/
+/-- the statement that failed before fix (signature `mimebundle|fresh-without-fallback`) now holds -/
+theorem mimebundle_respects_fallback_full_holds : mimebundle_respects_fallback_full := by
+  intro u present inc exc draw
+  exact (mimebundleS_no_fresh (envT u ⟨true, false⟩ []) .empty _ (selOf inc exc) draw rfl rfl).2
+
+/-- nothing selected: `None`, nothing touched -/
 theorem mimebundle_respects_fallback_partial {B D : Type} (E : Env B D) (st : St D) (q : Req B D)
     (sel : Str → Bool) (draw : Bool) (hsel : bundleFormats E sel = []) :
     mimebundleS E st q sel draw = (st, [], .ok .bundleNone) := by
@@ -549,6 +565,30 @@ example :
        ([.opened pngF, .fromCache pngId, .opened svgF],
         .ok (.bundle [("image/png".toList, .fromCache pngId (.file pngF))])),
        ([], .error (.base .notInCache))] := by
+  decide +kernel
+
+-- after fix `mimebundle|ancestor-not-used`: include={"image/png"}, only `<uuid>.svg` cached → the cached SVG
+-- converted forward, nothing rendered; and with PNG conversion raising (no cairosvg) the default bundle still
+-- shows the cached SVG (the failure is logged and that MIME type skipped)
+example :
+    (mimebundleS (envT dU ⟨true, true⟩ []) .empty (okReq [svgF] []) (selOf (some ["image/png".toList]) []) false).2
+    = ([.opened pngF, .opened svgF, .fromCache svgId, .convert pngId],
+       .ok (.bundle [("image/png".toList, .convert pngId (.fromCache svgId (.file svgF)))])) := by
+  decide +kernel
+
+example :
+    (mimebundleS (envT dU ⟨true, true⟩ [("convert".toList, pngId, .other)]) .empty (okReq [svgF] []) (selOf none []) false).2
+    = ([.opened pngF, .opened svgF, .fromCache svgId, .convert pngId, .opened svgF, .fromCache svgId],
+       .ok (.bundle [("image/svg+xml".toList, .fromCache svgId (.file svgF))])) := by
+  decide +kernel
+
+-- after fix `mimebundle|fresh-without-fallback`: empty cache, fallback off → the "not in cache" error image in
+-- every selected format, the renderer does not run, the state stays empty
+example :
+    mimebundleS (envT dU ⟨true, false⟩ []) .empty (okReq [] []) (selOf (some ["image/svg+xml".toList]) []) false
+    = (.empty, [.opened svgF, .errImage .render, .call "convert_svgdiagram".toList, .convert svgId],
+       .ok (.bundle [("image/svg+xml".toList,
+         .convert svgId (.call "convert_svgdiagram".toList (.errImage .render .notInCache)))])) := by
   decide +kernel
 
 -- the hypotheses of `cache_consulted_whatever_happened_before` are met (fallback off)
